@@ -156,6 +156,14 @@ func (e *Explorer) runOnce(body func()) {
 				}
 			case targetPanic:
 				// a panic escaped the harness: report as violation "escaping panic"
+				if fn := unmodelledEnvTop(); fn != "" {
+					// the interpreter ran into the body of an operating-system call that no model
+					// stands in for (package inits of os/syscall are not run): that is a hole in the
+					// environment model, not behaviour of the code under test
+					e.Aborted++
+					e.Unsupported["environment: panic inside unmodelled "+fn]++
+					break
+				}
 				e.Paths++
 				e.reportEscape("escaping-panic: " + toString(r.v))
 			case crashPanic:
@@ -502,6 +510,30 @@ func (e *Explorer) declareRegion(name string, t *Term) {
 func (e *Explorer) record(tag, known string) {
 	m := e.S.Values(e.inputs)
 	e.Violations = append(e.Violations, Violation{Tag: tag, Model: m, Known: known, Decisions: len(e.trace), Stack: lastStackIfPanic(tag)})
+}
+
+// unmodelledEnvTop: the innermost function of the panicking target stack if it belongs to the
+// operating-system layer (os, syscall, internal/poll, ...), else "".
+func unmodelledEnvTop() string {
+	// frames are innermost first; the callee that non-standard-library code called directly decides
+	prev := ""
+	for _, line := range strings.Split(lastStack, "\n") {
+		fn := strings.TrimSpace(line)
+		if fn == "" {
+			continue
+		}
+		if strings.Contains(fn, "github.com/") || strings.Contains(fn, "go.starlark.net/") || strings.Contains(fn, "golang.org/x/") {
+			break
+		}
+		prev = fn
+	}
+	name := strings.TrimLeft(prev, "(*")
+	for _, pfx := range []string{"os.", "os/exec.", "os/user.", "os/signal.", "syscall.", "internal/poll.", "internal/syscall/", "io/ioutil.", "net.", "time."} {
+		if strings.HasPrefix(name, pfx) {
+			return prev
+		}
+	}
+	return ""
 }
 
 func lastStackIfPanic(tag string) string {
